@@ -418,7 +418,7 @@ func (x *run) note(i int, via, phase string) {
 		verdict = "rej"
 	}
 	x.res.distinct[strings.Join([]string{c.In, c.Route, c.Frame, via, phase, x.backend, bodyClass(c, x.bodies[i]), strings.Join(set, "."), verdict}, "|")] = struct{}{}
-	if (i == 1 || len(x.cases) == 1) && len(x.res.samples) < 2 && via != "enqueue" {
+	if i == len(x.cases)-1 && len(x.res.samples) < 2 && via != "enqueue" {
 		x.res.samples = append(x.res.samples, map[string]any{"backend": x.backend, "flow": x.flow, "via": via, "phase": phase,
 			"in": c.In, "route": x.routeOf(c), "frame": c.Frame, "sent_headers": x.lines[i], "body": short(x.bodies[i]),
 			"reference_headers": refHeaders(c, x.lines[i]), "result": "match"})
